@@ -671,6 +671,17 @@ class Prover:
             return True
         if b[0] == "call" and b[1] == "min" and self.lt(a, b[2][0], depth + 1) and self.lt(a, b[2][1], depth + 1):
             return True
+        # a < a (+) n when n != 0 and a is below some value (so below the maximum): the saturating sum is a + n or MAX > a
+        if b[0] == "call" and b[1] == "saturating_add" and len(b[2]) == 2:
+            for x, n_ in ((b[2][0], b[2][1]), (b[2][1], b[2][0])):
+                if unref(x) == a:
+                    n_ = unref(n_)
+                    nz = (n_[0] == "int" and n_[1] > 0) or any(
+                        len(f) == 3 and ((f[0] == "ne" and {unref(f[1]), unref(f[2])} == {n_, ("int", 0)}) or
+                                         (f[0] == "lt" and f[1] == ("int", 0) and unref(f[2]) == n_)) for f in self.facts)
+                    below = any(len(f) == 3 and f[0] == "lt" and unref(f[1]) == a for f in self._facts_for(a))
+                    if nz and below:
+                        return True
         # a < b from a <= c, c < b
         for f in self._facts_for(b):
             if len(f) == 3 and f[0] == "lt" and f[2] == b and self.le(a, f[1], depth + 1):
